@@ -241,8 +241,13 @@ def truncate(S, options):
         good = _combine_constraints(good, good2, 'svd_min')
 
     if trunc_cut is not None:
-        good2 = np.cumsum(S[piv] ** 2) > trunc_cut * trunc_cut
-        good = _combine_constraints(good, good2, 'trunc_cut')
+        cumsum = np.cumsum(S[piv] ** 2)
+        good2 = cumsum > trunc_cut * trunc_cut
+        # don't discard more than trunc_cut**2 for the sake of trunc_cut, e.g. a whole degenerate multiplet
+        within = np.ones(len(piv), dtype=np.bool_)
+        within[1:] = cumsum[:-1] <= trunc_cut * trunc_cut
+        if np.any(good & good2 & within) or not np.any(good & good2):
+            good = _combine_constraints(good, good2 & within, 'trunc_cut')
 
     cut = np.nonzero(good)[0][0]  # smallest possible cut: keep as many S as allowed
     mask = np.zeros(len(S), dtype=np.bool_)
